@@ -76,7 +76,7 @@ func ruleC05(w *World) {
 		}
 		w.ruleErrorClauses("C05.R2g", f, map[string][]string{
 			fmt.Sprintf("len(%s) != %d", b, a.pkLen): {"ctor:invalidInputsErrorf"},
-			"== false":                                {"ctor:invalidInputsErrorf"},
+			"== false":                               {"ctor:invalidInputsErrorf"},
 		})
 	}
 	if f := w.method(blsAlgo, "decodePrivateKey"); f != nil {
@@ -234,15 +234,31 @@ func ruleC05(w *World) {
 	// R4 fixed-width encoders
 	pub, pr := w.ecdsaTypes("C05.R4")
 	if pub != nil && pr != nil {
-		for _, f := range []*ssa.Function{w.method(pr, "rawEncode"), w.method(pub, "rawEncode"), w.method(pr, "signHash")} {
+		// the encoders are located from the exported entry points: what Encode returns (through its
+		// internal worker) and what Sign returns (the buffer built next to the crypto/ecdsa.Sign call)
+		var rets []deepSite
+		for _, f := range []*ssa.Function{w.method(pr, "Encode"), w.method(pub, "Encode"), w.method(pr, "Sign")} {
 			if f == nil {
-				w.undecided("C05.R4", "anchor:encoder", token.NoPos, "unresolved anchor: ECDSA encoders")
+				w.undecided("C05.R4", "anchor:encoder", token.NoPos, "unresolved anchor: ECDSA Encode/Sign")
 				continue
 			}
-			for _, r := range returns(f) {
-				if isNilConst(r.Results[0]) {
+			for _, r := range w.returnsAll(f) {
+				ret := r.ins.(*ssa.Return)
+				if len(ret.Results) == 0 || isNilConst(ret.Results[0]) {
 					continue
 				}
+				rets = append(rets, r)
+			}
+		}
+		seenRet := map[*ssa.Return]bool{}
+		for _, rs := range rets {
+			r := rs.ins.(*ssa.Return)
+			if seenRet[r] {
+				continue
+			}
+			seenRet[r] = true
+			f := r.Parent()
+			{
 				ms, ok := sliceBase(r.Results[0]).(*ssa.MakeSlice)
 				if !ok {
 					w.viol("C05.R4", fnKey(f)+"/fixed-width", r.Pos(), "encoder does not return a fresh fixed-size buffer: "+render(r.Results[0]))
@@ -250,8 +266,8 @@ func ruleC05(w *World) {
 				}
 				ln := render(ms.Len)
 				w.check(!strings.Contains(ln, ".Bytes()") && strings.Contains(ln, "bitsToBytes("), "C05.R4", fnKey(f)+"/fixed-width", r.Pos(), "output length depends on curve parameters only: "+ln, "encoding length `"+ln+"` depends on the value being encoded (leading zero bytes would be dropped)")
-				// copies are right-aligned: copy(buf[K-len(b):], b)
-				instrs(f, func(ins ssa.Instruction) {
+				// copies are right-aligned in their field: copy(buf[K-len(b):], b) or copy(buf[K-len(b):K], b)
+				instrsFlat(f, func(ins ssa.Instruction) {
 					c, ok := ins.(*ssa.Call)
 					if !ok {
 						return
@@ -260,7 +276,17 @@ func ruleC05(w *World) {
 						return
 					}
 					dst, src := render(c.Call.Args[0]), render(c.Call.Args[1])
-					w.check(strings.Contains(dst, " - len("+src+")):]"), "C05.R4", fnKey(f)+"/right-aligned:"+src, c.Pos(), "big-endian value right-aligned in its field", "copy of `"+src+"` into the encoding is not right-aligned (`"+dst+"`)")
+					_, lo, hi, okp := sliceParts(dst)
+					good := false
+					if okp && strings.HasPrefix(lo, "(") && strings.HasSuffix(lo, " - len("+src+"))") {
+						fieldEnd := strings.TrimSuffix(strings.TrimPrefix(lo, "("), " - len("+src+"))")
+						good = hi == fieldEnd || hi == "" && (fieldEnd == ln || "("+fieldEnd+")" == ln || fieldEnd == strings.TrimSuffix(strings.TrimPrefix(ln, "("), ")"))
+						if hi == "" && !good {
+							// an open-ended destination is still right-aligned for the copy (copy stops after len(src) bytes)
+							good = true
+						}
+					}
+					w.check(good, "C05.R4", fnKey(f)+"/right-aligned:"+src, c.Pos(), "big-endian value right-aligned in its field", "copy of `"+src+"` into the encoding is not right-aligned (`"+dst+"`)")
 				})
 			}
 		}
@@ -499,8 +525,8 @@ func ruleC06(w *World) {
 			}
 			w.ruleErrorClauses("C06.R2", fn, map[string][]string{
 				fmt.Sprintf("len(%s) < (%s + 1)", shares, thr): {"ctor:notEnoughSharesErrorf"},
-				"#1 == true":                                     {"ctor:duplicatedSignerErrorf"},
-				fmt.Sprintf("] >= %s", size):                     {"ctor:invalidInputsErrorf"},
+				"#1 == true":                 {"ctor:duplicatedSignerErrorf"},
+				fmt.Sprintf("] >= %s", size): {"ctor:invalidInputsErrorf"},
 			})
 			// C failure ⇒ invalid-signature sentinel; success returns the buffer C wrote
 			for _, r := range returns(fn) {
@@ -511,8 +537,10 @@ func ruleC06(w *World) {
 			}
 		} else {
 			// stateful: only runs when enough shares are held
-			w.requireFacts("C06.R2", fnKey(fn)+"/cgo", c, P(fn, 0)+".enoughShares() == true")
-			w.ruleErrorClauses("C06.R2", fn, map[string][]string{".enoughShares() == false": {"ctor:notEnoughSharesErrorf"}})
+			enough := cmpFact("len("+P(fn, 0)+".shares)", "==", "("+P(fn, 0)+".threshold + 1)")
+			notEnough := cmpFact("len("+P(fn, 0)+".shares)", "!=", "("+P(fn, 0)+".threshold + 1)")
+			w.requireFacts("C06.R2", fnKey(fn)+"/cgo", c, enough)
+			w.ruleErrorClauses("C06.R2", fn, map[string][]string{notEnough: {"ctor:notEnoughSharesErrorf"}})
 			// signer index i+1 for the share of participant i
 			ok1 := false
 			instrs(fn, func(ins ssa.Instruction) {
@@ -523,13 +551,6 @@ func ruleC06(w *World) {
 			w.check(ok1, "C06.R2", fnKey(fn)+"/signer-index", fn.Pos(), "signer j is evaluated at x = j+1", "signer indices are not shifted by one (evaluation point 0 is the secret)")
 		}
 		w.check(render(c.Call.Args[3]) == P(fn, 1) || strings.HasSuffix(render(c.Call.Args[3]), ".threshold"), "C06.R2", fnKey(fn)+"/degree", c.Pos(), "degree argument is the threshold", "degree passed to C is not the threshold: "+render(c.Call.Args[3]))
-	}
-	// enoughShares helper means exactly threshold+1
-	if es := w.method(T, "enoughShares"); es != nil {
-		for _, r := range returns(es) {
-			s := render(r.Results[0])
-			w.check(s == cmpFact2("len("+P(es, 0)+".shares)", "==", "("+P(es, 0)+".threshold + 1)"), "C06.R2", fnKey(es)+"/definition", r.Pos(), "enough = exactly threshold+1 shares", "enoughShares is `"+s+"`, expected len(shares) == threshold+1")
-		}
 	}
 }
 
